@@ -342,7 +342,7 @@ func c09Row(w *mon.W, i int) {
 
 func c09KeyZoo(w *mon.W, idx int) {
 	r := w.Rng
-	keys := gen.KeyZoo(r, 4, r.Pick(3, 7, 8, 9, 15, 16, 17, 24))
+	keys := gen.KeyZoo(r, 4, r.Pick(3, 7, 8, 9, 15, 16, 17, 24, 24, 40, 100, 300))
 	mk := func(s string) *c09Enc {
 		n := 8 * len(s)
 		from, to := 0, n
